@@ -92,6 +92,10 @@ func genC16(t *rapid.T) *c16Scenario {
 		}
 	}
 	n := rapid.IntRange(5, 60).Draw(t, "nevents")
+	if rapid.IntRange(0, 11).Draw(t, "long_history") == 0 {
+		// several hundred events: whatever a stuck background handler holds on to per invocation must not run out
+		n = rapid.IntRange(270, 600).Draw(t, "nevents_long")
+	}
 	for i := 0; i < n; i++ {
 		if rapid.IntRange(0, 5).Draw(t, "probe") == 0 {
 			sc.Events = append(sc.Events, "!"+rapid.SampledFrom(c16Probes).Draw(t, "probe_line"))
